@@ -141,6 +141,13 @@ def _is_reraise_connerror(handler_body):
     return isinstance(r.exc, ast.Call) and _dotted(r.exc.func) == "ScrapliConnectionError"
 
 
+def _only_try_finally(stmts):
+    """the single `try: … finally: …` (no handlers, no else) a statement list consists of, else None"""
+    if len(stmts) == 1 and isinstance(stmts[0], ast.Try) and stmts[0].finalbody and not stmts[0].handlers and not stmts[0].orelse:
+        return stmts[0]
+    return None
+
+
 def prog_of(rel, cls, name):
     where = f"{rel}:{cls}.{name}"
     body = _body_wo_doc(_find_method(rel, cls, name))
@@ -154,12 +161,24 @@ def prog_of(rel, cls, name):
             if st.orelse:
                 raise TranslateError(f"{where}: line {st.lineno}: try/else is not in the statement language")
             if st.finalbody and not st.handlers:
-                nodes.append(f".tryFinally [{', '.join(_flat(where, st.body))}] [{', '.join(_flat(where, st.finalbody))}]")
+                inner = _only_try_finally(st.finalbody)
+                if inner is not None:
+                    # try: body  finally: (try: fin1  finally: fin2)
+                    nodes.append(f".tryFinallyN [{', '.join(_flat(where, st.body))}] [{', '.join(_flat(where, inner.body))}] "
+                                 f"[{', '.join(_flat(where, inner.finalbody))}]")
+                else:
+                    nodes.append(f".tryFinally [{', '.join(_flat(where, st.body))}] [{', '.join(_flat(where, st.finalbody))}]")
                 continue
             if len(st.handlers) == 1 and not st.finalbody:
                 h = st.handlers[0]
                 if _dotted(h.type) == "Exception" and _is_reraise_connerror(h.body):
-                    nodes.append(f".tryExceptRaise [{', '.join(_flat(where, st.body))}] [{', '.join(_flat(where, h.body[:-1]))}]")
+                    hb = h.body[:-1]
+                    if hb and _only_try_finally(hb[-1:]) is not None:
+                        inner = hb[-1]
+                        nodes.append(f".tryExceptRaiseN [{', '.join(_flat(where, st.body))}] [{', '.join(_flat(where, hb[:-1]))}] "
+                                     f"[{', '.join(_flat(where, inner.body))}] [{', '.join(_flat(where, inner.finalbody))}]")
+                    else:
+                        nodes.append(f".tryExceptRaise [{', '.join(_flat(where, st.body))}] [{', '.join(_flat(where, hb))}]")
                     continue
             raise TranslateError(f"{where}: line {st.lineno}: this try statement is not in the statement language")
         for gs in _flat(where, [st]):
@@ -294,7 +313,79 @@ def paramiko_close_closes_session():
     return any(all("session_channel" not in g for g in guards) for guards in calls)
 
 
+LIFECYCLE_METHODS = {"open", "close", "__enter__", "__exit__", "__aenter__", "__aexit__"}
+
+
+def assert_no_overrides():
+    """the eight programs are read from Driver / AsyncDriver only: no other class under scrapli/driver may define one of them"""
+    from vlib.common import REPO
+    for path in sorted((REPO / "scrapli" / "driver").rglob("*.py")):
+        rel = str(path.relative_to(REPO))
+        for node in ast.walk(ast.parse(path.read_text())):
+            if isinstance(node, ast.ClassDef):
+                if rel in ("scrapli/driver/base/sync_driver.py", "scrapli/driver/base/async_driver.py") and node.name in ("Driver", "AsyncDriver"):
+                    continue
+                for n in node.body:
+                    if isinstance(n, (ast.FunctionDef, ast.AsyncFunctionDef)) and n.name in LIFECYCLE_METHODS:
+                        raise TranslateError(f"{rel}: class {node.name} overrides {n.name}; the model only knows the base classes' methods")
+
+
+def assert_handle_timeout_shape():
+    """decorators._handle_timeout: unless Settings.NO_TERMINATE_ON_TIMEOUT, transport.close(); then raise ScrapliTimeout —
+    the one structural fact the model's `stall` step relies on"""
+    rel = "scrapli/decorators.py"
+    fn = _find_function(rel, "_handle_timeout")
+    body = _body_wo_doc(fn)
+    if not (len(body) == 2 and isinstance(body[0], ast.If) and isinstance(body[1], ast.Raise)):
+        raise TranslateError(f"{rel}: _handle_timeout is not `if …: … else: …close()` followed by `raise`")
+    if "NO_TERMINATE_ON_TIMEOUT" not in ast.unparse(body[0].test):
+        raise TranslateError(f"{rel}: _handle_timeout does not branch on Settings.NO_TERMINATE_ON_TIMEOUT")
+    closes = [n for st in body[0].orelse for n in ast.walk(st) if isinstance(n, ast.Call) and _dotted(n.func) == "transport.close"]
+    closes_if = [n for st in body[0].body for n in ast.walk(st) if isinstance(n, ast.Call) and _dotted(n.func) == "transport.close"]
+    if len(closes) != 1 or closes_if:
+        raise TranslateError(f"{rel}: _handle_timeout must call transport.close() exactly in the branch where termination is on")
+    r = body[1].exc
+    if not (isinstance(r, ast.Call) and _dotted(r.func) == "ScrapliTimeout"):
+        raise TranslateError(f"{rel}: _handle_timeout does not end in `raise ScrapliTimeout(…)`")
+
+
+# transport -> (handles whose truth makes close() close something, handles set to None unconditionally)
+CLOSE_TABLE = {
+    "system": ("SystemTransport", {"session"}, {"session"}),
+    "telnet": ("TelnetTransport", {"socket"}, {"socket"}),
+    "asynctelnet": ("AsynctelnetTransport", {"stdin"}, {"stdin", "stdout"}),
+    "paramiko": ("ParamikoTransport", None, {"session", "session_channel"}),          # tested handles: see paramiko_close_closes_session
+    "asyncssh": ("AsyncsshTransport", {"session"}, {"session", "stdin", "stdout"}),
+}
+
+
+def transport_close_handles(kind):
+    """read off `close()`: which `self.<h>` guard a `.close()` call of that very handle at the top level, and which
+    `self.<x> = None` are executed unconditionally; compared with the table the model's transportClose/ownerHeld were written from"""
+    cls, want_tested, want_cleared = CLOSE_TABLE[kind]
+    rel = f"scrapli/transport/plugins/{kind}/transport.py"
+    fn = _find_method(rel, cls, "close")
+    tested, cleared = set(), set()
+    for st in _body_wo_doc(fn):
+        if isinstance(st, ast.If) and not st.orelse:
+            h = _dotted(st.test)
+            if h and h.startswith("self.") and any(isinstance(n, ast.Call) and _dotted(n.func) == h + ".close" for x in st.body for n in ast.walk(x)):
+                tested.add(h[5:])
+        elif isinstance(st, ast.Assign) and len(st.targets) == 1 and isinstance(st.value, ast.Constant) and st.value.value is None:
+            t = _dotted(st.targets[0])
+            if t and t.startswith("self."):
+                cleared.add(t[5:])
+    if want_tested is not None and tested != want_tested:
+        raise TranslateError(f"{rel}: {cls}.close() closes under handles {sorted(tested)}, the model was written for {sorted(want_tested)}")
+    if cleared != want_cleared:
+        raise TranslateError(f"{rel}: {cls}.close() unconditionally clears {sorted(cleared)}, the model was written for {sorted(want_cleared)}")
+    return tested, cleared
+
+
 def generate():
+    assert_no_overrides()
+    assert_handle_timeout_shape()
+    handles = {k: transport_close_handles(k) for k in CLOSE_TABLE}
     sync, asyn = "scrapli/driver/base/sync_driver.py", "scrapli/driver/base/async_driver.py"
     body = HEADER.format(src=f"{sync}, {asyn}, the five core platforms' hooks, base_channel.py, telnet/asynctelnet/paramiko transports")
     body += "import ScrapliModel.LifecycleSyntax\nnamespace Scrapli.Gen.Lifecycle\nopen Scrapli.Lifecycle\n\n"
@@ -324,5 +415,9 @@ def generate():
     body += f"    asynctelnetOpenResets := {telnet_resets('scrapli/transport/plugins/asynctelnet/transport.py', 'AsynctelnetTransport')}\n"
     body += f"    channelCloseKeepsUserSink := {'true' if channel_close_keeps_user_sink() else 'false'}\n"
     body += f"    paramikoCloseClosesSession := {'true' if paramiko_close_closes_session() else 'false'} }}\n\n"
-    body += "end Scrapli.Gen.Lifecycle\n"
+    body += "/- transport close(): handles whose truth leads to a close / handles set to None unconditionally (asserted against the\n"
+    body += "   table in tools/gen/c11.py the model's transportClose was written from; TranslateError on any difference)\n"
+    for k, (t, c) in handles.items():
+        body += f"   {k}: tested {sorted(t)} cleared {sorted(c)}\n"
+    body += "-/\n\nend Scrapli.Gen.Lifecycle\n"
     return [("ScrapliModel/Gen/LifecycleSrc.lean", body)]
